@@ -9,6 +9,9 @@ import OdlModel.Gen.FiniteDiff
 import OdlModel.Lemmas.FiniteDiff
 import Mathlib.Tactic.FieldSimp
 import Mathlib.Algebra.CharZero.Defs
+import Mathlib.Algebra.Field.Basic
+import Mathlib.Algebra.Ring.Hom.Defs
+import Mathlib.Algebra.GroupWithZero.Units.Lemmas
 
 open OdlModel.FiniteDiff OdlModel.Gen.FiniteDiff Finset
 
@@ -470,3 +473,53 @@ example (F G : Idx → ℚ) :
         (fun a => if a = 0 then 2 else if a = 1 then 3 else 1) 2 0 (fun _ => 1) G x) :=
   C13.laplacian_selfadjoint .symmetric (by decide) _ 2 (by decide)
     (by intro a ha; rcases (show a = 0 ∨ a = 1 by omega) with rfl | rfl <;> simp) _ F G
+
+
+/-! ### Complex scalars -/
+
+/-- All coefficients are rational, so `finite_diff` commutes with every ring endomorphism
+that fixes `dx` (complex conjugation for a real `dx`). -/
+theorem C13.fd_map {K : Type} [Field K] (σ : K →+* K) (t : Table) (n : Nat) (hn : 2 ≤ n)
+    (dx : K) (hdx : σ dx = dx) (f : Nat → K) (i : Nat) :
+    fd den t n 0 dx (fun k => σ (f k)) i = σ (fd den t n 0 dx f i) := by
+  have lin : ∀ ts : List Term, evalTerms n 0 (fun k => σ (f k)) ts = σ (evalTerms n 0 f ts) := by
+    intro ts
+    induction ts with
+    | nil => simp [evalTerms]
+    | cons a as ih =>
+      obtain ⟨q, src⟩ := a
+      cases src <;> simp [evalTerms, evalTerm, ih]
+  have lacc : ∀ accs : List Acc, accSum n 0 (fun k => σ (f k)) accs i
+      = σ (accSum n 0 f accs i) := by
+    intro accs
+    induction accs with
+    | nil => simp [accSum]
+    | cons a as ih => simp only [accSum, ih, lin]; split_ifs <;> simp
+  simp only [fd, fdNum_closed _ n hn, lin, lacc, interior, map_div₀, map_mul, map_natCast, hdx]
+  split_ifs <;> simp
+
+/-- Hermitian form of `fd_adjoint_transpose` (complex dtype: `σ` = conjugation, `dx` real):
+`⟨D f, g⟩ = ⟨f, −D' g⟩` for the sesquilinear pairing `Σ uᵢ·σ(vᵢ)`, all `n`. -/
+theorem C13.fd_adjoint_hermitian {K : Type} [Field K] (σ : K →+* K) (m : Method) (p : Pad)
+    (n : Nat) (h : sizeCheck guards (tbl m p) p n = none)
+    (h' : sizeCheck guards (tbl (adjMethod m) (adjPad p)) (adjPad p) n = none)
+    (dx : K) (hdx : σ dx = dx) (f g : Nat → K) :
+    ∑ i ∈ range n, fd den (tbl m p) n 0 dx f i * σ (g i)
+      = - ∑ j ∈ range n, f j * σ (fd den (tbl (adjMethod m) (adjPad p)) n 0 dx g j) := by
+  have hn : 2 ≤ n := le_trans (tbl _ _).two_le_need (sizeCheck_none h')
+  have key := C13.fd_adjoint_transpose m p n h h' dx f (fun k => σ (g k))
+  simp only [C13.fd_map σ _ n hn dx hdx g] at key
+  rw [← key]
+  exact sum_congr rfl (fun i _ => mul_comm _ _)
+
+
+/-! ### Which instance `.adjoint` returns -/
+
+/-- On linear instances (`pad_const = 0`) of all four classes, `.adjoint.adjoint` is the
+instance itself: same class (Gradient ↔ Divergence swapped twice), method, pad mode, sign. -/
+theorem C13.op_adjoint_involutive {K : Type} [Field K] [DecidableEq K] (k : Kind) (m : Method)
+    (p : Pad) (neg : Bool) :
+    ((⟨k, m, p, (0 : K), neg⟩ : Op K).adjoint adjMethod adjPad).bind
+        (fun o => o.adjoint adjMethod adjPad) = some ⟨k, m, p, 0, neg⟩ := by
+  obtain ⟨h1, h2, -, -⟩ := C13.adj_involutive
+  cases k <;> simp [Op.adjoint, Op.isLinear, h1 m, h2 p]
